@@ -410,8 +410,14 @@ def set_process_mode(mode):
     """"debug": rv loggers at DEBUG with a handler that formats every record; "off": logging disabled."""
     import logging
 
+    import warnings
+
     lg = logging.getLogger("rv")
+    warnings.resetwarnings()
+    warnings.simplefilter("ignore")
     if mode == "debug":
+        # ... and Python warnings issued from inside the library are errors (as under -W error), other warnings stay silent
+        warnings.filterwarnings("error", module=r"rv(\.|$)")
         class H(logging.Handler):
             def emit(self, record):
                 try:
